@@ -40,6 +40,13 @@ package hashslot_test
 //     floor..ceil, removed slot is empty, no donor is drained below floor, no
 //     receiver is filled above ceil) and counts literal misses in
 //     literal_miss.* for the report.
+//     In addition (coordinator decision) the clause is judged literally on
+//     ANY input for all three plan kinds: every slot that appears as From or
+//     To and shares the range after the plan must end with |count*k-h| <= k
+//     (within one hash slot of h/k). Signature
+//     plan-leaves-participant-off-ideal:<kind>:<unbalanced|balanced>-input;
+//     at most two witnesses per signature (first seen, smallest seen), the
+//     rest counted (literal_judged_miss.*, note literal_clause_occurrences_*).
 //   * removing the only active slot has no possible plan; counted, not
 //     asserted.
 //   * hash slots are only ever reassigned to non-zero physical slot ids (0 is
@@ -212,6 +219,18 @@ type c20Mon struct {
 	// that changed neither the observable state nor the version (BFS only; the
 	// identical state was checked when it was first reached).
 	skipCleanNoops bool
+	// literal (judged) balance clause bookkeeping, see judgeLiteral
+	lit map[string]*c20LitSig
+}
+
+// c20LitSig tracks one "plan-leaves-participant-off-ideal:..." signature: the
+// first occurrence is reported at once, the smallest one (by h, then owners,
+// then plan length) at the end of the run; everything else is only counted.
+type c20LitSig struct {
+	n        int
+	firstKey [3]int
+	minKey   [3]int
+	minWit   any
 }
 
 // versionStep checks the version clause across one call that turned state
@@ -519,6 +538,93 @@ type c20PlanSummary struct {
 	ok           bool
 }
 
+// judgeLiteral is the statement's balance clause read literally, on ANY
+// input: every participating slot (one that appears as From or To in the plan
+// and shares the range after the plan) ends within one hash slot of its ideal
+// share h/k, i.e. |count*k - h| <= k, where k = number of slots sharing the
+// range after the plan (`sharing`). Slots the plan does not touch are not
+// judged. This is looser than floor..ceil, which stays asserted separately
+// for balanced inputs / Rebalance.
+func (m *c20Mon) judgeLiteral(kind, call string, h int, sharing map[multiraft.SlotID]struct{}, plan []hashslot.MigrationPlan,
+	s c20Snap, before, after map[multiraft.SlotID]int, inBalanced bool) (miss bool) {
+	k := len(sharing)
+	if k == 0 || len(plan) == 0 {
+		return false
+	}
+	judged := map[multiraft.SlotID]struct{}{}
+	for _, p := range plan {
+		for _, id := range [2]multiraft.SlotID{p.From, p.To} {
+			if _, ok := sharing[id]; ok {
+				judged[id] = struct{}{}
+			}
+		}
+	}
+	var worst multiraft.SlotID
+	worstDev := -1
+	for id := range judged {
+		dev := after[id]*k - h
+		if dev < 0 {
+			dev = -dev
+		}
+		if dev > k && (dev > worstDev || (dev == worstDev && id < worst)) {
+			worst, worstDev = id, dev
+		}
+	}
+	m.r.Count("literal_judged."+kind, 1)
+	if worstDev < 0 {
+		return false
+	}
+	sig := "plan-leaves-participant-off-ideal:" + kind + ":unbalanced-input"
+	if inBalanced {
+		sig = "plan-leaves-participant-off-ideal:" + kind + ":balanced-input"
+	}
+	m.r.Count("literal_judged_miss."+kind, 1)
+	if m.lit == nil {
+		m.lit = map[string]*c20LitSig{}
+	}
+	ls := m.lit[sig]
+	key := [3]int{h, len(before), len(plan)}
+	mk := func() any {
+		p := plan
+		if len(p) > 32 {
+			p = p[:32]
+		}
+		return map[string]any{"h": h, "owners_vector": s.witness(), "call": call, "plan_len": len(plan), "plan_head": p,
+			"k": k, "ideal_share": fmt.Sprintf("%d/%d", h, k), "slot": worst, "count_after": after[worst],
+			"counts_before": c20CountsJSON(before), "counts_after": c20CountsJSON(after), "input_balanced": inBalanced}
+	}
+	less := func(a, b [3]int) bool {
+		for i := range a {
+			if a[i] != b[i] {
+				return a[i] < b[i]
+			}
+		}
+		return false
+	}
+	if ls == nil {
+		ls = &c20LitSig{firstKey: key, minKey: key}
+		m.lit[sig] = ls
+		m.r.Violation(sig, mk()) // first occurrence, kept witness 1 of 2
+	} else if less(key, ls.minKey) {
+		ls.minKey, ls.minWit = key, mk()
+	}
+	ls.n++
+	return true
+}
+
+// emitLiteralMinima reports, once per signature, the smallest witness seen if
+// it is smaller than the first one (kept witness 2 of 2), and the totals.
+func (m *c20Mon) emitLiteralMinima() {
+	occ := map[string]int{}
+	for sig, ls := range m.lit {
+		occ[sig] = ls.n
+		if ls.minWit != nil && ls.minKey != ls.firstKey {
+			m.r.Violation(sig, ls.minWit)
+		}
+	}
+	m.r.Note("literal_clause_occurrences_per_signature", occ)
+}
+
 // checkPlans computes and checks rebalance, add (for the given new ids) and
 // remove (for the given ids) plans on t in state s.
 func (m *c20Mon) checkPlans(t *hashslot.HashSlotTable, h int, s c20Snap, addIDs, removeIDs []multiraft.SlotID, hist func() any) c20PlanSummary {
@@ -560,6 +666,8 @@ func (m *c20Mon) checkPlans(t *hashslot.HashSlotTable, h int, s c20Snap, addIDs,
 					break
 				}
 			}
+			// a literal miss does not stop the walk from applying the plan
+			m.judgeLiteral("Rebalance", "ComputeRebalancePlan(t)", h, part, plan, s, before, after, inBalanced)
 			if inBalanced && k == k0 && len(plan) > 0 {
 				// not promised: a balanced table may still be shuffled towards
 				// the canonical remainder placement. Evidence only.
@@ -622,6 +730,7 @@ func (m *c20Mon) checkPlans(t *hashslot.HashSlotTable, h int, s c20Snap, addIDs,
 		for id := range before {
 			part[id] = struct{}{}
 		}
+		m.judgeLiteral("AddSlot", fmt.Sprintf("ComputeAddSlotPlan(t, %d)", newID), h, part, plan, s, before, after, inBalanced)
 		for id := range part {
 			if c := after[id]; c < lo || c > hi {
 				if inBalanced {
@@ -704,6 +813,15 @@ func (m *c20Mon) checkPlans(t *hashslot.HashSlotTable, h int, s c20Snap, addIDs,
 			}
 		}
 		literalMiss := false
+		remaining := map[multiraft.SlotID]struct{}{}
+		for id := range before {
+			if id != rmID {
+				remaining[id] = struct{}{}
+			}
+		}
+		// the removed slot itself does not share the range afterwards: it is
+		// judged by the "removed slot empty" clause, not by the ideal share
+		m.judgeLiteral("RemoveSlot", fmt.Sprintf("ComputeRemoveSlotPlan(t, %d)", rmID), h, remaining, plan, s, before, after, inBalanced)
 		for id := range before {
 			if id == rmID {
 				continue
@@ -1129,9 +1247,11 @@ func TestVerifC20(t *testing.T) {
 	defer r.Finish()
 	r.SetRule("A: BFS from NewHashSlotTable(h,s) over every Reassign/StartMigration/AdvanceMigration/FinalizeMigration/AbortMigration argument combination (incl. out-of-range and invalid ones) up to a state cap per size; B: every assignment vector {0..h-1}->{1..s} for small h,s; C: PRNG walks (15-60 ops: reassign, skewed runs, migrations valid/invalid in all phases, decoded table swapped in, plans applied through the migration API) on tables h<=4096, s<=64 plus fresh 64-bit slot ids. After every call: mapping/partition, encode/decode round trip, version clause; plans (rebalance, add for free ids, remove for owners) checked on every BFS state, every vector and at random walk points. Non-trivial = BFS state reached by >=1 effective op (distinct by size+state); vector with >=2 owners (distinct by size+vector); walk with >=3 effective changes and >=2 owners (distinct by abstract shape: h, owners, active migrations, effective ops, op kinds, balanced?).")
 	r.Assume("hash slots are only reassigned/migrated to non-zero physical slot ids; slot id 0 is the API's 'unassigned' value")
-	r.Assume("add/remove plans are required to balance every participating slot only when the input layout is balanced; on unbalanced inputs: new slot inside floor..ceil, removed slot empty, no donor below floor, no receiver above ceil (literal misses counted in literal_miss.*)")
+	r.Assume("literal clause (judged on every input, all plan kinds): each slot named as From/To that still shares the range ends with |count*k-h|<=k, k = slots sharing the range after the plan; the removed slot is judged by 'ends empty' instead")
+	r.Assume("strict floor..ceil for add/remove is required only when the input layout is balanced; on unbalanced inputs: new slot inside floor..ceil, removed slot empty, no donor below floor, no receiver above ceil (literal misses counted in literal_miss.*)")
 	r.Assume("a version bump on a call that changes nothing observable is not a violation (statement only constrains effective changes); a version decrease always is")
 	m := &c20Mon{r: r}
+	defer m.emitLiteralMinima() // runs before r.Finish
 	idx := 0
 	phaseStart := time.Now() // evidence only (phase_wall_s), never decides anything
 	phaseWall := map[string]float64{}
